@@ -126,7 +126,7 @@ def IndexPhase (s : Store) (roots : List Nat) (s5 : Store) : Prop :=
 /-- **`optimize_data_block_and_retain` after its guard**, phase by phase: the index phase appends (`s5`), the
 reversed walk satisfies its invariant with the slide offset (`s6`), the re-pointing loop runs on `s6` (`sR`), and the
 rest is `TailFacts` -/
-theorem optimizeBody_core {s s' : Store} {roots m : List Nat}
+theorem optimizeBody_coreX {s s' : Store} {roots m : List Nat}
     (h : Store.optimizeBody s roots = .ok (s', m)) (hr : s.retention ≤ s.cells.size) (hlw : ListsWF s.cells) :
     ∃ s5 s6 sR : Store,
       CInv (s5.cells.size - s.retention) s.cells s5 s.cells.size s5.cells.size 0 s6 ∧
@@ -134,7 +134,11 @@ theorem optimizeBody_core {s s' : Store} {roots m : List Nat}
       s6.currentValue = s.currentValue ∧
       Store.repointLoop (s6.start + s.cells.size) (s6.start + s5.cells.size) s.cells.size s6 s.currentValue = .ok sR ∧
       TailFacts s s' roots m sR s.cells.size s5.cells.size ∧ IndexPhase s roots s5 ∧
-      (s5.cells.size = s.cells.size → s6.cells.size = s5.cells.size) := by
+      (s5.cells.size = s.cells.size → s6.cells.size = s5.cells.size) ∧
+      -- the reversed walk itself (for invariants other than `CInv`)
+      (Store.cloneLoop (s5.cells.size - s.retention) (s5.start + s5.cells.size) s.cells.size
+          (s5.cells.size - s.cells.size) s5 = .ok s6 ∨ (s6 = s5 ∧ s5.cells.size = s.cells.size)) ∧
+      s5.retention = s.retention := by
   unfold Store.optimizeBody at h
   simp only [bind_eq_ok] at h
   obtain ⟨s1, h1, s2, h2, s3, h3, s4, h4, s5, h5, h6⟩ := h
@@ -189,6 +193,29 @@ theorem optimizeBody_core {s s' : Store} {roots m : List Nat}
         rw [hEq, Nat.sub_self] at hinv0
         rw [hEq]
         exact hinv0
+    have hloopX : Store.cloneLoop (s5.cells.size - s.retention) (s5.start + s5.cells.size) s.cells.size
+        (s5.cells.size - s.cells.size) s5 = .ok s6' ∨ (s6' = s5 ∧ s5.cells.size = s.cells.size) := by
+      split at h7
+      · simp only [bind_eq_ok, pure_eq_ok] at h7
+        obtain ⟨⟨sx, rx⟩, hx, hy'⟩ := h7
+        subst hy'
+        simp only [Store.cloneIndexStack, bind_eq_ok] at hx
+        obtain ⟨s2', hloop, c, _, h3'⟩ := hx
+        have hs2 : s2' = sx := by
+          split at h3'
+          · simp only [pure, Outcome.ok.injEq, Prod.mk.injEq] at h3'; exact h3'.1
+          · simp at h3'
+        subst hs2
+        rw [hoffv] at hloop
+        exact Or.inl (by simpa [Store.cursor] using hloop)
+      · rename_i hne
+        simp only [pure, Outcome.ok.injEq] at h7
+        refine Or.inr ⟨h7.symm, ?_⟩
+        have : s5.start + s5.cursor = s.start + s.cursor := by
+          rcases Decidable.em (s5.start + s5.cursor = s.start + s.cursor) with h | h
+          · exact h
+          · exact absurd h hne
+        simp only [Store.cursor, hstart5] at this; omega
     have eR := repointLoop_ext _ _ _ _ _ _ hR
     have hstart6' : s6'.start = s.start := hinv.start.trans hstart5
     have hret6' : s6'.retention = s.retention := hinv.ret.trans hret5
@@ -245,7 +272,7 @@ theorem optimizeBody_core {s s' : Store} {roots m : List Nat}
         simp only [Store.cursor, hstart5, heq]
       · simp only [pure, Outcome.ok.injEq] at h7
         rw [← h7]
-    refine ⟨s5, s6', s6, hinv, hc0A, hret6', hstart6', hheads6'.2.1, hRnorm, ?_, ⟨s1, s2, s3, s4, h1, h2, h3, h4, h5⟩, hnoidx⟩
+    refine ⟨s5, s6', s6, hinv, hc0A, hret6', hstart6', hheads6'.2.1, hRnorm, ?_, ⟨s1, s2, s3, s4, h1, h2, h3, h4, h5⟩, hnoidx, hloopX, hret5⟩
     -- heads, roots and symbols are looked up in stores with the data of `s6`
     have hsd7 : SameData s6 s7 := hsd7
     have hregL := remapOpt_spec hreg
@@ -289,6 +316,19 @@ theorem optimizeBody_core {s s' : Store} {roots m : List Nat}
          exact h1
        · have h2 := hshift
          simpa [Store.cursor, hsd7.cells, hsd7.ret, hsd7.start, hret6, hstart6, hstart5, Nat.add_sub_add_left] using h2)
+
+theorem optimizeBody_core {s s' : Store} {roots m : List Nat}
+    (h : Store.optimizeBody s roots = .ok (s', m)) (hr : s.retention ≤ s.cells.size) (hlw : ListsWF s.cells) :
+    ∃ s5 s6 sR : Store,
+      CInv (s5.cells.size - s.retention) s.cells s5 s.cells.size s5.cells.size 0 s6 ∧
+      s.cells.size ≤ s5.cells.size ∧ s6.retention = s.retention ∧ s6.start = s.start ∧
+      s6.currentValue = s.currentValue ∧
+      Store.repointLoop (s6.start + s.cells.size) (s6.start + s5.cells.size) s.cells.size s6 s.currentValue = .ok sR ∧
+      TailFacts s s' roots m sR s.cells.size s5.cells.size ∧ IndexPhase s roots s5 ∧
+      (s5.cells.size = s.cells.size → s6.cells.size = s5.cells.size) := by
+  obtain ⟨s5, s6, sR, a1, a2, a3, a4, a5, a6, a7, a8, a9, _⟩ := optimizeBody_coreX h hr hlw
+  exact ⟨s5, s6, sR, a1, a2, a3, a4, a5, a6, a7, a8, a9⟩
+
 
 /-- all that `optimize` reports is linked to what was there, on heaps whose links all point downwards -/
 theorem optimizeBody_links {s s' : Store} {roots m : List Nat}
